@@ -149,9 +149,7 @@ theorem multFloat64_defined (l m E : Nat) (hl : l < 2 ^ 63) (hr : m * 2 ^ E ≤ 
     simp only [hb, Bool.false_eq_true, if_false]
     unfold float64ToCoin
     rw [hb, hof]
-    show ∃ a, (match F64.toNatTrunc (F64.roundDiv (false != false) (ml * m * 2 ^ (El + E)) (2 ^ 1074)) with
-      | some n => Except.ok n | none => Except.error Err.undef) = Except.ok a
-    simp only [bne_self_eq_false]
+    simp only [F64.mul, bne_self_eq_false]
     rw [F64.roundDiv_eq]
     by_cases hinf2 : 2045 < F64.finE (ml * m * 2 ^ (El + E)) (2 ^ 1074)
     · rw [if_pos hinf2] at hP; exact absurd hP (by simp [F64.leNN])
